@@ -14,9 +14,9 @@ def build_lbsim(sd):
 
 
 def consts(strategies, N=3, N0=3, weight="W321", win=1, thr=2, maxhold=0, clients=(1, 2), passive=True,
-           active=False, admin=False, mark=False, outcomes=("ok", "fail")):
+           active=False, admin=False, mark=False, badops=False, outcomes=("ok", "fail")):
     return dict(strategies=strategies, N=N, N0=N0, weight=weight, win=win, thr=thr, maxhold=maxhold,
-                clients=clients, passive=passive, active=active, admin=admin, mark=mark, outcomes=outcomes)
+                clients=clients, passive=passive, active=active, admin=admin, mark=mark, badops=badops, outcomes=outcomes)
 
 
 def cfg_text(c, gen=True, invariants=(), properties=(), constraint=None, view="GenView"):
@@ -35,10 +35,11 @@ def cfg_text(c, gen=True, invariants=(), properties=(), constraint=None, view="G
   ActiveOn = %s
   AdminOn = %s
   MarkOn = %s
+  BadOpsOn = %s
   Outcomes = {%s}
 """ % (c["N"], c["N0"], ", ".join('"%s"' % s for s in c["strategies"]), c["weight"], c["win"], c["thr"],
        c["maxhold"], ", ".join(str(x) for x in c["clients"]), b(c["passive"]), b(c["active"]), b(c["admin"]),
-       b(c["mark"]), ", ".join('"%s"' % o for o in c["outcomes"]))
+       b(c["mark"]), b(c.get("badops", False)), ", ".join('"%s"' % o for o in c["outcomes"]))
     if gen:
         t += "INIT MCInit\nNEXT MCNext\nVIEW %s\nINVARIANTS EmitInit\nACTION_CONSTRAINT Emit\n" % view
     else:
@@ -64,7 +65,7 @@ def tlc_cfg(module, text, name, **kw):
     return vlib.tlc(module, name, workdir=wd, **kw)
 
 
-PLAN = {"ok": "ok", "fail": "s500", "abort": "abort", "hold": "hold"}
+PLAN = {"ok": "ok", "fail": "s500", "abort": "abort", "hold": "hold", "cancel": "cancel"}
 
 
 def act_to_step(a, rid):
@@ -97,26 +98,21 @@ def act_to_step(a, rid):
 
 
 def scripts_from(r, prefix, weights=None, max_len=300, snap=False):
-    trs = r.printed("TR")
-    inits = r.printed("IN")
-    adj = graphs.build(trs)
-    ntr = sum(len(v) for v in adj.values())
+    ws, stats = vlib.walks(r, max_len=max_len)
     scripts = []
-    for i, ini in enumerate(inits):
-        walks = graphs.covering_walks(ini["s"], adj, max_len=max_len)
-        for j, w in enumerate(walks):
-            steps = []
-            rid = 0
-            for a in w:
-                rid += 1
-                st = act_to_step(a, rid)
-                if st["a"] == "admin" and st["op"] == "add" and weights:
-                    st["w"] = weights[a["b"] - 1]
-                steps.append(st)
-            if snap:
-                steps.append({"a": "snap", "s": "end"})
-            scripts.append({"id": "%s-%d-%d" % (prefix, i, j), "cfg": ini["cf"], "steps": steps})
-    return scripts, ntr
+    for j, w in enumerate(ws):
+        steps = []
+        rid = 0
+        for a in w["acts"]:
+            rid += 1
+            st = act_to_step(a, rid)
+            if st["a"] == "admin" and st["op"] == "add" and weights:
+                st["w"] = weights[a["b"] - 1]
+            steps.append(st)
+        if snap:
+            steps.append({"a": "snap", "s": "end"})
+        scripts.append({"id": "%s-%d-%d" % (prefix, w["init"], j), "cfg": w["cf"], "steps": steps})
+    return scripts, stats["transitions"]
 
 
 def replay(binp, scripts, sd, name, timeout=900):
@@ -227,12 +223,15 @@ def run_check(pid, tier, props, plan_list, rule=None, snap=False, extra=None, cl
         g = tlc_cfg("MCPool", cfg_text(c), "gen.cfg", workers=8, timeout=1500)
         scripts, ntr = scripts_from(g, name, snap=snap)
         total_tr += ntr
-        vlib.log("  plan %s: %d model transitions, %d walks, %d steps" % (name, ntr, len(scripts), sum(len(s["steps"]) for s in scripts)))
+        vlib.log("  plan %s: %d model transitions, %d walks, %d steps (M check %.1fs, gen %.1fs)" % (name, ntr, len(scripts), sum(len(s["steps"]) for s in scripts), r.wall, g.wall))
         tp = replay(binp, scripts, sd, name)
         chk.cov["traces_validated_against_impl"] += len(scripts)
         for s in scripts:
             chk.count_case([s["cfg"]["strategy"], len(s["steps"]), s["id"]])
+        import time as _t
+        _t0 = _t.time()
         judge(chk, tp, scripts, set(props), sd, name, clauses=clauses)
+        vlib.log("    replay+judge %.1fs" % (_t.time() - _t0))
         if scripts:
             chk.sample({"plan": name, "script": scripts[0]["id"], "strategy": scripts[0]["cfg"]["strategy"],
                         "steps": scripts[0]["steps"][:10], "events": segment(tp, scripts[0]["id"])[1:9]}, limit=6)
